@@ -606,6 +606,11 @@ def rule_subst_order(ck, facts, lang, R="C09.subst-order"):
 
 
 def run(ck, facts, tier):
+    # names inside a splice are resolved by the same resolver as everything else: its scope stack is touched only by
+    # its own push / pop (a splice that sets the stack aside resolves a macro parameter to a module member)
+    from . import c17 as _c17
+
+    _c17.rule_scope(ck, facts)
     from ..rules import saverestore
 
     saverestore.run(ck, facts, "C09.stage-tracker", "mimium_lang", scope="::compiler::typing", floor=2, why="the stage a bracket or an escape switches to is the surrounding stage again when the construct ends")
